@@ -10,7 +10,7 @@
 
 namespace simio {
 
-enum FileId { FILE_NONE = -1, FILE_F = 0, FILE_BACKUP = 1, FILE_LOCK = 2 };
+enum FileId { FILE_NONE = -1, FILE_F = 0, FILE_BACKUP = 1, FILE_LOCK = 2, FILE_OTHER = 3 /* any other file in the job directory, e.g. a temporary file that is renamed over the job file */ };
 
 struct WriteFault {
   enum Kind { NONE, SHORT, KILL } kind = NONE;
